@@ -596,6 +596,21 @@ def run(ctx):
                 return ("LEN",)
             return None
         HALF = Poly.atom(("idiv", L.key(), Poly.const(2).key()))
+
+        def slice_view(e):
+            """(offset, length | None = to the end) of a sub-slice of `lin`"""
+            if show(e) == "lin":
+                return Poly.const(0), None
+            if e[0] == "field" and e[2] in ("0", "1") and e[1][0] == "call" and e[1][1].endswith("split_at") and len(e[1][2]) == 2:
+                inner = slice_view(e[1][2][0])
+                if inner is None:
+                    return None
+                off, ln = inner
+                k_ = to_poly(e[1][2][1], atomize)
+                if e[2] == "0":
+                    return off, k_
+                return off + k_, (ln - k_ if ln is not None else None)
+            return None
         pushes = [(bb, t) for bb, t in fl.calls() if t["callee"]["k"] == "fndef" and cm.callee_name(t["callee"]).endswith("Vec::<T, A>::push")]
         okp = False
         for bb, t in pushes:
@@ -619,8 +634,15 @@ def run(ctx):
                         a_, b_ = z[2]
 
                         def half(e, k):
-                            return (e[0] == "field" and e[2] == k and e[1][0] == "call" and e[1][1].endswith("split_at") and
-                                    show(e[1][2][0]) == "lin" and to_poly(e[1][2][1], atomize) == HALF)
+                            # slice algebra over `lin`: (offset, length or None) of a sub-slice built
+                            # with split_at / first-half / second-half projections
+                            v_ = slice_view(e)
+                            if v_ is None:
+                                return False
+                            off, ln = v_
+                            if k == "0":
+                                return off == Poly.const(0) and ln == HALF
+                            return off == HALF and (ln is None or ln == HALF)
                         cb = p.bodies.get(clo[1][len("closure:"):])
                         cr = ExprBuilder(cb).local(0) if cb is not None else ("unk",)
                         pair = cr[0] == "agg" and cr[1].endswith("MeanVari::MeanVari") and len(cr[2]) == 2 and show(cr[2][0]) == "arg2.0" and show(cr[2][1]) == "arg2.1"
@@ -641,6 +663,11 @@ def run(ctx):
                     pol = to_poly(x[2][1], atomize)
                     # 2 * (len div 2): the element after the two halves
                     if pol == HALF * Poly.const(2):
+                        okm = True
+                # first element of the sub-slice that starts after the two halves
+                if x[0] == "call" and x[1].endswith("<impl [T]>::first") and len(x[2]) == 1:
+                    v_ = slice_view(x[2][0])
+                    if v_ is not None and v_[0] == HALF * Poly.const(2) and v_[1] is None:
                         okm = True
             if okm:
                 ctx.ok("C04-R4", "from_linear: msd = lin.get(2*len) (the optional trailing weight)", fl.loc())
